@@ -24,6 +24,7 @@ func init() {
 			"R11.5 placeholder misplacement: secrets are re-inserted by replacing the first '<key>: <secret>' occurrences in collection order, so the collection order must follow the serialisation order of the sections and no section serialised earlier may contain a Secret under the same YAML key. " +
 			"R11.7 every accepted configuration reaches the injector: the reload callbacks run on every accepting path of ReloadFromRaw, conditional only on its error checks. " +
 			"R11.2 also: the proxy URL is set for every job whenever the inject proxy is configured, under no condition on the job itself; the injector's assignment is replaced as a whole by the map of each update and never merged into. " +
+			"R11.7 also: an injection reports success only after the generated file was written in that very call (no skip-if-unchanged memory). " +
 			"Not decided: validity of the YAML for every configuration.",
 		Assumptions: []string{"go/types and go/ssa are correct", "config_util.Secret marshals as <secret> (reviewed in the pinned prometheus/common)",
 			"HTTPClientConfig.Validate moves bearer_token into authorization.credentials and clears it (reviewed in the pinned prometheus/common; re-derived from its SSA in the thorough tier)"}})
@@ -368,6 +369,57 @@ func runC11(p *engine.Prog, r *engine.Report) {
 			}
 		}
 		r.Check(len(probs) == 0 && nW > 0, "R11.2-values", "injector assignment", "who-may-write table of Injector.curTargets", "replaced as a whole by the map of each update (never merged into)", strings.Join(probs, "; "))
+	}
+	// ---- R11.7 (written): an injection that reports success has written the generated file in that very call: every
+	// return that can be nil is the write's own result or comes after a write that succeeded. ("Content unchanged, skip
+	// the write" shortcuts trust a memory of what the file holds that a failed write makes wrong.)
+	{
+		fWrite := p.Field(pkgSide, "Injector", "writeFile")
+		for _, fn := range side {
+			if fn.Parent() != nil || fn.Signature.Results().Len() != 1 || !isErrorType(fn.Signature.Results().At(0).Type()) {
+				continue
+			}
+			var writes []*ssa.Call
+			for _, in := range allInstrs(fn) {
+				if call, ok := in.(*ssa.Call); ok {
+					if _, ok := loadOfField(call.Call.Value, fWrite); ok {
+						writes = append(writes, call)
+					}
+				}
+			}
+			if len(writes) == 0 {
+				continue
+			}
+			fi := p.Info(fn)
+			var probs []string
+			for _, ret := range returnsOf(fn) {
+				v := returnedValue(ret, 0)
+				if v == nil {
+					continue
+				}
+				isWrite := false
+				for _, w := range writes {
+					if unwrapErr(v) == ssa.Value(w) {
+						isWrite = true
+					}
+				}
+				if isWrite || (!isNilConst(v) && nonNilErrAt(fi, v, ret.Block(), 0)) {
+					continue
+				}
+				after := false
+				for _, w := range writes {
+					if engine.InstrDominates(w, ret) {
+						if ok, _ := fi.Implies(ret.Block(), engine.EqAtom(fi.T(w).S, "nil")); ok {
+							after = true
+						}
+					}
+				}
+				if !after {
+					probs = append(probs, "the return at "+p.Rel(ret.Pos())+" can report success without the file having been written in this call")
+				}
+			}
+			r.Check(len(probs) == 0, "R11.7-applied", "file written by "+engine.FuncName(fn), engine.FuncName(fn), "success only after the generated file was written by this call", strings.Join(probs, "; "))
+		}
 	}
 	// ---- R11.3 other writes to Config + freshness
 	{
